@@ -734,6 +734,10 @@ func vwBuildPath(m protoreflect.Message, path []vwStep, name string) {
 		mp.Set(key, protoreflect.ValueOfMessage(sub))
 	case fd.IsList():
 		l := m.Mutable(fd).List()
+		if vwLinkFront && fd.Message() != nil && fd.Message().FullName() == "temporal.api.common.v1.Link" {
+			// a link of another kind first: the scan for links naming a namespace must not stop at it
+			l.Append(protoreflect.ValueOfMessage((&commonpb.Link{Variant: &commonpb.Link_BatchJob_{BatchJob: &commonpb.Link_BatchJob{JobId: "verif-job"}}}).ProtoReflect()))
+		}
 		sub := l.NewElement().Message()
 		vwBuildPath(sub, path[1:], name)
 		l.Append(protoreflect.ValueOfMessage(sub))
@@ -742,6 +746,9 @@ func vwBuildPath(m protoreflect.Message, path []vwStep, name string) {
 		vwBuildPath(sub, path[1:], name)
 	}
 }
+
+// when set, every list of links built along a path starts with a batch-job link
+var vwLinkFront bool
 
 func vwPathString(path []vwStep) string {
 	var parts []string
@@ -798,11 +805,20 @@ func TestVerifWalker(t *testing.T) {
 					}
 				}
 			}
+			for _, pc0 := range append([]pathCase{}, pcases...) {
+				for _, st := range pc0.path {
+					if st.fd.IsList() && st.fd.Message() != nil && st.fd.Message().FullName() == "temporal.api.common.v1.Link" {
+						pcases = append(pcases, pathCase{pc0.id + "+linkfront", pc0.path})
+						break
+					}
+				}
+			}
 			for _, pc := range pcases {
 				id, path := pc.id, pc.path
 				if only != "" && only != id {
 					continue
 				}
+				vwLinkFront = strings.HasSuffix(id, "+linkfront")
 				stats["paths"]++
 				msg := vwNew(root.full)
 				vwBuildPath(msg.ProtoReflect(), path, "orig")
@@ -922,6 +938,7 @@ func TestVerifWalker(t *testing.T) {
 			}
 		}
 	}
+	vwLinkFront = false
 	pNS, pSA, primed := map[string]Translator{}, map[string]Translator{}, map[string]bool{}
 	for ri, root := range roots {
 		for c := 0; c < cases; c++ {
